@@ -200,6 +200,48 @@ Proof.
 Qed.
 
 (* ------------------------------------------------------------------ *)
+(* ------------------------------------------------------------------ *)
+(* the database as a finite map: puts to OTHER keys do not change a lookup *)
+Lemma db_get_put_other d kv k : fst kv <> k -> db_get (db_put d kv) k = db_get d k.
+Proof.
+  intros Hne. unfold db_get, db_put. cbn [find].
+  destruct (fst kv =? k) eqn:E; [apply Z.eqb_eq in E; contradiction|].
+  induction d as [|p d IH]; [reflexivity|]. cbn [filter find].
+  destruct (fst p =? fst kv) eqn:E1; cbn [negb].
+  - apply Z.eqb_eq in E1. destruct (fst p =? k) eqn:E2; [|exact IH].
+    apply Z.eqb_eq in E2. congruence.
+  - cbn [find]. destruct (fst p =? k); [reflexivity|exact IH].
+Qed.
+
+Lemma db_get_put_all_other w : forall d k,
+  ~ In k (map fst w) -> db_get (db_put_all d w) k = db_get d k.
+Proof.
+  induction w as [|kv w IH]; intros d k Hn; [reflexivity|].
+  cbn [db_put_all fold_left]. change (fold_left db_put w (db_put d kv)) with (db_put_all (db_put d kv) w).
+  rewrite IH; [|intros H; apply Hn; right; exact H].
+  apply db_get_put_other. intros E. apply Hn. left. exact E.
+Qed.
+
+
+(* (k, f) is the LAST entry for key k in a list of puts *)
+Definition last_for (k f : Z) (l : list (Z * Z)) : Prop :=
+  exists q1 q2, l = q1 ++ (k, f) :: q2 /\ forall p, In p q2 -> fst p <> k.
+
+Lemma db_get_put_same d k f : db_get (db_put d (k, f)) k = Some f.
+Proof. unfold db_get, db_put. cbn [find fst]. rewrite Z.eqb_refl. reflexivity. Qed.
+
+Lemma db_put_all_app d l1 l2 : db_put_all d (l1 ++ l2) = db_put_all (db_put_all d l1) l2.
+Proof. unfold db_put_all. apply fold_left_app. Qed.
+
+(* persisting a queue leaves, for a key, the filter queued last for it *)
+Lemma flush_last_for d l k f : last_for k f l -> db_get (db_put_all d l) k = Some f.
+Proof.
+  intros (q1 & q2 & -> & Hn). rewrite db_put_all_app.
+  change (db_put_all (db_put_all d q1) ((k, f) :: q2)) with (db_put_all (db_put (db_put_all d q1) (k, f)) q2).
+  rewrite db_get_put_all_other; [apply db_get_put_same|].
+  intros H. apply in_map_iff in H as (p0 & E & Hin). exact (Hn p0 Hin E).
+Qed.
+
 Section Oracles.
   Variable Hf : Z -> Z -> Z.
   Variable fh : Z -> Z.
@@ -361,15 +403,70 @@ Section Oracles.
   (* ---------------------------------------------------------------- *)
   (* one call *)
 
+  Notation good := (good Hf fh best).
+  Notation local_ok := (local_ok Hf fh best).
+  Notation has_header := (has_header best).
+  Notation has_good := (has_good Hf fh).
+
+  Lemma local_ok_split c f : local_ok c f = has_header c && verified (c_blk c) f.
+  Proof. reflexivity. Qed.
+
+  Lemma local_ok_verified c f : local_ok c f = true -> verified (c_blk c) f = true.
+  Proof. rewrite local_ok_split. intros H. apply andb_true_iff in H. tauto. Qed.
+
+  Lemma good_some c o f : good c o = Some f -> o = Some f /\ local_ok c f = true.
+  Proof.
+    unfold Model.good. destruct o as [x|]; [|discriminate].
+    destruct (local_ok c x) eqn:E; [|discriminate]. intros [= <-]. auto.
+  Qed.
+
+  Lemma good_none c f : good c (Some f) = None -> local_ok c f = false.
+  Proof. unfold Model.good. destruct (local_ok c f); [discriminate|reflexivity]. Qed.
+
+  Lemma lru_get_fst c k : fst (lru_get c k) = option_map eval (lru_find c k).
+  Proof. unfold lru_get. destruct (lru_find c k); reflexivity. Qed.
+
+  Lemma lru_get_snd_In c k e : In e (snd (lru_get c k)) -> In e c.
+  Proof.
+    unfold lru_get. destruct (lru_find c k) as [e0|] eqn:F; cbn [snd]; [|tauto].
+    intros [<-|H]; [|eapply lru_remove_In; eauto].
+    unfold lru_find in F. apply find_some in F. tauto.
+  Qed.
+
+  Lemma lru_get_miss c k : (forall e, In e c -> ekey e <> k) -> lru_get c k = (None, c).
+  Proof.
+    intros Hm. unfold lru_get. destruct (lru_find c k) as [e|] eqn:F; [|reflexivity].
+    exfalso. unfold lru_find in F. apply find_some in F as [Hin Hk]. apply Z.eqb_eq in Hk. exact (Hm e Hin Hk).
+  Qed.
+
+  Lemma lru_get_hit c k f : fst (lru_get c k) = Some f -> exists e, In e c /\ ekey e = k /\ eval e = f.
+  Proof.
+    destruct (lru_get c k) as [o c'] eqn:E. cbn [fst]. intros ->.
+    apply lru_get_some in E as (e & Hin & Hk & Hv & _). eauto.
+  Qed.
+
+  (* the state a call works on after its cache lookup *)
+  Definition touched (st : gstate) (c : call) : gstate :=
+    {| cache := snd (lru_get (cache st) (c_blk c)); db := db st; dbq := dbq st |}.
+
+  Lemma touched_ok st c : state_ok st -> state_ok (touched st c).
+  Proof.
+    intros (Hc & Hd & Hq). repeat split; cbn [touched cache db dbq]; auto.
+    intros e He. apply Hc. eapply lru_get_snd_In, He.
+  Qed.
+
+  Lemma touched_miss st c : (forall e, In e (cache st) -> ekey e <> c_blk c) -> touched st c = st.
+  Proof. intros Hm. unfold touched. rewrite (lru_get_miss _ _ Hm). destruct st; reflexivity. Qed.
+
   Ltac gc c st :=
-    unfold Model.get_cfilter;
+    unfold Model.get_cfilter; cbv zeta; fold (touched st c);
     destruct (c_ftype_ok c) eqn:Hft; cbn [negb];
-    [ destruct (lru_get (cache st) (c_blk c)) as [[hv|] hc] eqn:Hget;
-      [ | destruct (db_get (db st) (c_blk c)) as [dv|] eqn:Hdb;
+    [ destruct (good c (fst (lru_get (cache st) (c_blk c)))) as [hv|] eqn:Hgc;
+      [ | destruct (good c (db_get (db st) (c_blk c))) as [dv|] eqn:Hgd;
           [ | destruct (c_known c) eqn:Hknown; cbn [negb];
               [ destruct (prepare (c_blk c) best (c_batch c) (c_maxbatch c)) as [|start stop pend] eqn:Hprep;
                 [ | destruct (feed (c_blk c) {| pending := pend; tfilter := None;
-                                                 qcache := cache st; qdbq := dbq st |} (c_resps c))
+                                                 qcache := cache (touched st c); qdbq := dbq st |} (c_resps c))
                       as [q pg] eqn:Hfeed ]
               | ] ] ]
     | ]; cbn [fst snd mk_obs o_res o_queried o_range o_prog o_cache o_db cache db dbq].
@@ -380,26 +477,11 @@ Section Oracles.
 
   Lemma get_cfilter_inv st c : state_ok st -> state_ok (fst (get_cfilter st c)).
   Proof.
-    intros Hok. pose proof Hok as (Hc & Hd & Hq). gc c st; try exact Hok.
-    - apply lru_get_some in Hget as (e & Hin & _ & _ & ->).
-      repeat split; cbn [cache db dbq]; auto.
-      intros x [<-|Hx]; [apply Hc, Hin|]. apply Hc. eapply lru_remove_In; eauto.
-    - pose proof (feed_inv (c_blk c) (c_resps c) _ (q0_inv (c_blk c) st pend Hok)) as Hi.
-      rewrite Hfeed in Hi. cbn [fst] in Hi. destruct Hi as (Hc' & Hq' & _).
-      repeat split; cbn [cache db dbq]; auto.
-  Qed.
-
-  Lemma get_cfilter_verified st c f :
-    state_ok st -> o_res (snd (get_cfilter st c)) = RFilter f -> verified (c_blk c) f = true.
-  Proof.
-    intros Hok. pose proof Hok as (Hc & Hd & Hq). gc c st; try discriminate.
-    - intros [= <-]. apply lru_get_some in Hget as (e & Hin & Hk & Hv & _).
-      rewrite <- Hk, <- Hv. apply Hc, Hin.
-    - intros [= <-]. apply Hd, db_get_In, Hdb.
-    - pose proof (feed_inv (c_blk c) (c_resps c) _ (q0_inv (c_blk c) st pend Hok)) as Hi.
-      rewrite Hfeed in Hi. cbn [fst] in Hi. destruct Hi as (_ & _ & Ht).
-      destruct (c_verdict c); try discriminate.
-      destruct (tfilter q) eqn:Etf; [|discriminate]. intros [= <-]. apply Ht. reflexivity.
+    intros Hok. pose proof (touched_ok st c Hok) as Hok1. gc c st; try assumption.
+    pose proof (feed_inv (c_blk c) (c_resps c) _ (q0_inv (c_blk c) (touched st c) pend Hok1)) as Hi.
+    cbn [touched dbq] in Hi. fold (touched st c) in Hi.
+    rewrite Hfeed in Hi. cbn [fst] in Hi. destruct Hi as (Hc' & Hq' & _).
+    destruct Hok as (_ & Hd & _). repeat split; cbn [cache db dbq]; auto.
   Qed.
 
   (* a fetched filter was served, for the target block, by a well-formed
@@ -418,17 +500,41 @@ Section Oracles.
     destruct (c_verdict c) eqn:Hv; try discriminate.
     destruct (tfilter q) eqn:Etf; [|discriminate]. intros [= <-] _.
     pose proof (feed_target (c_blk c) (c_resps c)
-                  {| pending := pend; tfilter := None; qcache := cache st; qdbq := dbq st |} z) as Ht.
+                  {| pending := pend; tfilter := None; qcache := cache (touched st c); qdbq := dbq st |} z) as Ht.
     rewrite Hfeed in Ht. cbn [fst tfilter pending] in Ht.
     destruct (Ht Etf) as [H|(Hp & r & Hin & Hw & Hb & Hf' & Hver)]; [discriminate|].
     split; [reflexivity|]. split; [exists start, stop, pend; auto|]. exists r. auto.
   Qed.
 
+  (* a filter served locally is an entry of the cache or of the database that
+     passes the check of matchesCommittedHeader *)
+  Lemma get_cfilter_from_local st c f :
+    o_res (snd (get_cfilter st c)) = RFilter f ->
+    o_queried (snd (get_cfilter st c)) = false ->
+    local_ok c f = true /\
+    ((exists e, In e (cache st) /\ ekey e = c_blk c /\ eval e = f) \/ db_get (db st) (c_blk c) = Some f).
+  Proof.
+    gc c st; try discriminate.
+    - intros [= <-] _. apply good_some in Hgc as [Hg Hl]. split; [exact Hl|left]. apply lru_get_hit, Hg.
+    - intros [= <-] _. apply good_some in Hgd as [Hg Hl]. split; [exact Hl|right; exact Hg].
+  Qed.
+
+  (* THE repair: whatever a call returns — from the network, the cache or the
+     database, in ANY state — satisfies the relation *)
+  Lemma get_cfilter_verified st c f :
+    o_res (snd (get_cfilter st c)) = RFilter f -> verified (c_blk c) f = true.
+  Proof.
+    intros Hres. destruct (o_queried (snd (get_cfilter st c))) eqn:Hq.
+    - destruct (get_cfilter_from_network st c f Hres Hq) as (_ & _ & r & _ & _ & _ & _ & Hv). exact Hv.
+    - destruct (get_cfilter_from_local st c f Hres Hq) as [Hl _]. apply local_ok_verified, Hl.
+  Qed.
+
   (* if no well-formed response for the target block satisfies the relation
-     (or the batch fails, or the block is unknown), a call that misses cache
-     and database returns an error *)
+     (or the batch fails, or the block is unknown), a call that finds no
+     local entry passing the check returns an error *)
   Lemma get_cfilter_error st c :
-    (forall e, In e (cache st) -> ekey e <> c_blk c) -> db_get (db st) (c_blk c) = None ->
+    (forall e, lru_find (cache st) (c_blk c) = Some e -> local_ok c (eval e) = false) ->
+    (forall f, db_get (db st) (c_blk c) = Some f -> local_ok c f = false) ->
     (forall r, In r (c_resps c) -> wellformed r = true -> r_blk r = c_blk c ->
                verified (c_blk c) (r_filt r) = false)
       \/ c_verdict c <> VOk \/ c_known c = false \/ c_ftype_ok c = false ->
@@ -442,20 +548,22 @@ Section Oracles.
       + specialize (H r Hin Hw Hb). congruence.
       + revert Hq. gc c st; discriminate.
       + revert Hq. gc c st; discriminate.
-    - revert Hres Hq. gc c st; try discriminate; try congruence.
-      apply lru_get_some in Hget as (e & Hin & Hk & _). exfalso. exact (Hmiss e Hin Hk).
+    - revert Hres Hq. gc c st; try discriminate; intros [= <-] _.
+      + apply good_some in Hgc as [Hg Hl]. rewrite lru_get_fst in Hg.
+        destruct (lru_find (cache st) (c_blk c)) as [e|] eqn:F; [|discriminate].
+        cbn in Hg. injection Hg as <-. rewrite (Hmiss e eq_refl) in Hl. discriminate.
+      + apply good_some in Hgd as [Hg Hl]. rewrite (Hdbm _ Hg) in Hl. discriminate.
   Qed.
 
   (* height 0 and heights above the best filter header: never a filter from
-     the network; without batching, nothing is touched at all *)
+     the network; without batching, nothing but the recency of the looked-up
+     cache entry is touched *)
   Lemma get_cfilter_out_of_range st c :
     0 <= c_blk c < two32 -> 0 <= best < two32 ->
     c_blk c = 0 \/ best < c_blk c ->
     o_queried (snd (get_cfilter st c)) = true ->
     is_err (o_res (snd (get_cfilter st c))) = true /\
-    (c_batch c = 0 -> cache (fst (get_cfilter st c)) = cache st /\
-                      dbq (fst (get_cfilter st c)) = dbq st /\
-                      db (fst (get_cfilter st c)) = db st).
+    (c_batch c = 0 -> fst (get_cfilter st c) = touched st c).
   Proof.
     intros Hh Hb Hout Hq. split.
     - destruct (o_res (snd (get_cfilter st c))) as [f| | | | |] eqn:Hres; try reflexivity. exfalso.
@@ -466,8 +574,8 @@ Section Oracles.
       destruct (prepare_range _ _ _ _ _ _ _ Hh Hb Hprep) as (_ & _ & _ & _ & _ & _ & _ & _ & He).
       specialize (He Hb0 Hout). subst pend.
       pose proof (feed_nil_pending (c_blk c) (c_resps c)
-                    {| pending := []; tfilter := None; qcache := cache st; qdbq := dbq st |} eq_refl) as Hf'.
-      rewrite Hfeed in Hf'. cbn [fst] in Hf'. subst q. cbn. auto.
+                    {| pending := []; tfilter := None; qcache := cache (touched st c); qdbq := dbq st |} eq_refl) as Hf'.
+      rewrite Hfeed in Hf'. cbn [fst] in Hf'. subst q. reflexivity.
   Qed.
 
   Lemma get_cfilter_nobatch_refused st c :
@@ -477,11 +585,11 @@ Section Oracles.
   Proof.
     intros Hout Hb0 Hmiss Hdbm.
     pose proof (prepare_nobatch_refused (c_blk c) best (c_maxbatch c) Hout) as Hp.
-    unfold Model.get_cfilter. destruct (c_ftype_ok c); cbn [negb]; [|reflexivity].
-    destruct (lru_get (cache st) (c_blk c)) as [[hv|] hc] eqn:Hget.
-    - exfalso. apply lru_get_some in Hget as (e & Hin & Hk & _). exact (Hmiss e Hin Hk).
-    - rewrite Hdbm. destruct (c_known c); cbn [negb]; [|reflexivity].
-      rewrite Hb0, Hp. reflexivity.
+    unfold Model.get_cfilter. cbv zeta. fold (touched st c). rewrite (touched_miss st c Hmiss).
+    destruct (c_ftype_ok c); cbn [negb]; [|reflexivity].
+    rewrite (lru_get_miss _ _ Hmiss), Hdbm. cbn [fst Model.good].
+    destruct (c_known c); cbn [negb]; [|reflexivity].
+    rewrite Hb0, Hp. reflexivity.
   Qed.
 
   (* the request that goes out is for the prepared range *)
@@ -491,22 +599,22 @@ Section Oracles.
                  POk (fst (o_range (snd (get_cfilter st c)))) (snd (o_range (snd (get_cfilter st c)))) pend.
   Proof. gc c st; try discriminate. intros _. exists pend. reflexivity. Qed.
 
-  (* a cached or stored filter is returned without the network *)
+  (* a cached or stored filter that passes the check is returned without the
+     network (the cache first) *)
   Lemma get_cfilter_local st c :
     c_ftype_ok c = true ->
-    (exists e, In e (cache st) /\ ekey e = c_blk c) \/ (exists f, db_get (db st) (c_blk c) = Some f) ->
+    (exists f, good c (fst (lru_get (cache st) (c_blk c))) = Some f) \/
+    (exists f, good c (db_get (db st) (c_blk c)) = Some f) ->
     o_queried (snd (get_cfilter st c)) = false /\
     is_err (o_res (snd (get_cfilter st c))) = false /\
     db (fst (get_cfilter st c)) = db st /\ dbq (fst (get_cfilter st c)) = dbq st.
   Proof.
-    intros Hft H. unfold Model.get_cfilter. rewrite Hft. cbn [negb].
-    destruct (lru_get (cache st) (c_blk c)) as [[hv|] hc] eqn:Hget; [cbn; auto|].
-    apply lru_get_none in Hget as [_ Hn].
-    destruct H as [(e & Hin & Hk)|(f & Hf')]; [exfalso; exact (Hn e Hin Hk)|].
+    intros Hft H. unfold Model.get_cfilter. cbv zeta. rewrite Hft. cbn [negb].
+    destruct (good c (fst (lru_get (cache st) (c_blk c)))) as [hv|] eqn:Hgc; [cbn; auto|].
+    destruct H as [(f & Hf')|(f & Hf')]; [discriminate|].
     rewrite Hf'. cbn. auto.
   Qed.
 
-  (* ---------------------------------------------------------------- *)
   (* every history of operations *)
 
   Lemma step_inv st o : state_ok st -> state_ok (fst (step st o)).
@@ -633,16 +741,16 @@ Section Oracles.
     (forall p, In p (dbq (fst (get_cfilter st c))) -> In p (dbq st) \/ In p (served c)) /\
     db (fst (get_cfilter st c)) = db st.
   Proof.
+    assert (T : forall e, In e (cache (touched st c)) -> In e (cache st)).
+    { intros e He. eapply lru_get_snd_In, He. }
     gc c st; try (repeat split; auto; fail).
-    - apply lru_get_some in Hget as (e0 & Hin & _ & _ & ->). repeat split; auto.
-      intros e [<-|He]; [left; exact Hin|left; eapply lru_remove_In; eauto].
-    - pose proof (feed_growth (c_blk c) (c_resps c)
-                    {| pending := pend; tfilter := None; qcache := cache st; qdbq := dbq st |}) as [Gc Gd].
-      rewrite Hfeed in Gc, Gd. cbn [fst qcache qdbq] in Gc, Gd. repeat split.
-      + intros e He. apply Gc in He as [He|(r & Hin & Hw & Hk & Hv & Hver)]; [left; exact He|right].
-        split; [reflexivity|]. rewrite Hk, Hv. split; [apply served_In; assumption|exact Hver].
-      + intros p' Hp. apply Gd in Hp as [Hp|(r & Hin & Hw & ->)]; [left; exact Hp|right].
-        apply served_In; assumption.
+    pose proof (feed_growth (c_blk c) (c_resps c)
+                  {| pending := pend; tfilter := None; qcache := cache (touched st c); qdbq := dbq st |}) as [Gc Gd].
+    rewrite Hfeed in Gc, Gd. cbn [fst qcache qdbq] in Gc, Gd. repeat split.
+    + intros e He. apply Gc in He as [He|(r & Hin & Hw & Hk & Hv & Hver)]; [left; apply T, He|right].
+      split; [reflexivity|]. rewrite Hk, Hv. split; [apply served_In; assumption|exact Hver].
+    + intros p' Hp. apply Gd in Hp as [Hp|(r & Hin & Hw & ->)]; [left; exact Hp|right].
+      apply served_In; assumption.
   Qed.
 
   Lemma prepare_nobatch height maxb start stop pend :
@@ -657,6 +765,33 @@ Section Oracles.
   Lemma cache_view_In (cch : list entry) e : In e cch -> In (ekey e, eval e) (cache_view cch).
   Proof. intros H. unfold cache_view. apply in_map_iff. exists e. auto. Qed.
 
+  Lemma find_cache_view (cch : list entry) k :
+    find (fun p : Z * Z => fst p =? k) (cache_view cch) =
+    option_map (fun e => (ekey e, eval e)) (lru_find cch k).
+  Proof.
+    unfold lru_find, cache_view. induction cch as [|e l IH]; [reflexivity|]. cbn [map find fst].
+    destruct (ekey e =? k); [reflexivity|exact IH].
+  Qed.
+
+  (* the monitor's "a servable local entry exists" is the model's *)
+  Lemma has_good_cache st c :
+    has_header c && has_good c (cache_view (cache st)) =
+    match good c (fst (lru_get (cache st) (c_blk c))) with Some _ => true | None => false end.
+  Proof.
+    unfold Spec.has_good. rewrite find_cache_view, lru_get_fst.
+    destruct (lru_find (cache st) (c_blk c)) as [e|]; cbn [option_map snd Model.good]; [|apply andb_false_r].
+    rewrite local_ok_split. destruct (has_header c && verified (c_blk c) (eval e)); reflexivity.
+  Qed.
+
+  Lemma has_good_db st c :
+    has_header c && has_good c (db st) =
+    match good c (db_get (db st) (c_blk c)) with Some _ => true | None => false end.
+  Proof.
+    unfold Spec.has_good, db_get.
+    destruct (find _ (db st)) as [p0|]; cbn [Model.good]; [|apply andb_false_r].
+    rewrite local_ok_split. destruct (has_header c && verified (c_blk c) (snd p0)); reflexivity.
+  Qed.
+
   (* strict = true needs the state invariant; the core monitor does not *)
   Lemma call_ok_model strict st sv c :
     0 <= best < two32 -> 0 <= c_blk c < two32 ->
@@ -668,27 +803,25 @@ Section Oracles.
     rewrite !andb_true_iff. repeat split.
     - (* returned filter *)
       destruct (o_res (snd (get_cfilter st c))) as [f| | | | |] eqn:Hres; try reflexivity.
-      + destruct (o_queried (snd (get_cfilter st c))) eqn:Hq.
+      + rewrite (get_cfilter_verified st c f Hres). cbn [andb].
+        destruct (o_queried (snd (get_cfilter st c))) eqn:Hq.
         * destruct (get_cfilter_from_network st c f Hres Hq) as (Hv & _ & r & Hin & Hw & Hbk & Hf' & Hver).
-          cbn [orb]. rewrite Hver, Hv. cbn [andb]. apply pmem_In. rewrite <- Hbk, <- Hf'. apply served_In; assumption.
-        * cbn [orb]. apply andb_true_iff. split.
-          -- destruct strict; [|reflexivity]. apply (get_cfilter_verified st c f (Hok eq_refl) Hres).
-          -- revert Hres Hq. gc c st; try discriminate; intros [= <-] _.
-             ++ apply lru_get_some in Hget as (e & Hin & Hk & Hv & _).
-                apply orb_true_iff. left. apply pmem_In. rewrite <- Hk, <- Hv. apply cache_view_In, Hin.
-             ++ apply orb_true_iff. right. apply pmem_In, db_get_In, Hdb.
+          rewrite Hv. cbn [andb]. apply pmem_In. rewrite <- Hbk, <- Hf'. apply served_In; assumption.
+        * destruct (get_cfilter_from_local st c f Hres Hq) as [Hl Hsrc].
+          rewrite local_ok_split in Hl. apply andb_true_iff in Hl as [Hh' _]. rewrite Hh'. cbn [andb].
+          apply orb_true_iff. destruct Hsrc as [(e & Hin & Hk & Hv)|Hd].
+          -- left. apply pmem_In. rewrite <- Hk, <- Hv. apply cache_view_In, Hin.
+          -- right. apply pmem_In, db_get_In, Hd.
       + exfalso. revert Hres. gc c st; try discriminate. destruct (c_verdict c); try discriminate.
         destruct (tfilter q); discriminate.
     - gc c st; try reflexivity; destruct (c_known c); try reflexivity; discriminate.
     - destruct (c_ftype_ok c) eqn:Hft; [|reflexivity]. cbn [andb].
-      destruct (existsb (fun p0 : Z * Z => fst p0 =? c_blk c) (cache_view (cache st))
-                || existsb (fun p0 : Z * Z => fst p0 =? c_blk c) (db st)) eqn:Hhit; [|reflexivity].
+      destruct (has_header c && (has_good c (cache_view (cache st)) || has_good c (db st))) eqn:Hhit; [|reflexivity].
+      rewrite andb_orb_distrib_r, has_good_cache, has_good_db in Hhit.
       destruct (get_cfilter_local st c Hft) as (Hq & He & _).
-      { apply orb_true_iff in Hhit as [H|H]; apply existsb_exists in H as ([b f] & Hin & Hk);
-          cbn [fst] in Hk; apply Z.eqb_eq in Hk; subst b.
-        - left. unfold cache_view in Hin. apply in_map_iff in Hin as (e & [= Hk Hv] & He). eauto.
-        - right. unfold db_get. destruct (find _ (db st)) as [p0|] eqn:F; [eauto|].
-          exfalso. pose proof (find_none _ _ F _ Hin) as Hn. cbn in Hn. rewrite Z.eqb_refl in Hn. discriminate. }
+      { apply orb_true_iff in Hhit as [H|H].
+        - left. destruct (good c (fst (lru_get (cache st) (c_blk c)))) as [f|]; [eauto|discriminate].
+        - right. destruct (good c (db_get (db st) (c_blk c))) as [f|]; [eauto|discriminate]. }
       rewrite Hq, He. reflexivity.
     - destruct (o_queried (snd (get_cfilter st c))) eqn:Hq; [|reflexivity]. cbn [andb].
       destruct ((1 <=? c_blk c) && (c_blk c <=? best)) eqn:Hin; [reflexivity|]. cbn [negb].
@@ -782,29 +915,73 @@ Section Oracles.
     - intros b f Hin. unfold Spec.all_verified in Hd. rewrite forallb_forall in Hd. apply (Hd (b, f) Hin).
     - intros b f [].
   Qed.
+  (* ---------------------------------------------------------------- *)
+  (* healing: the verified answer of the network query replaces what was
+     stored for the block *)
+  Lemma handle_heals_cache target s r :
+    accepted s r = true -> fsize (r_filt r) <= cap ->
+    lru_find (qcache (fst (handle target s r))) (r_blk r) = Some (r_blk r, r_filt r, fsize (r_filt r)).
+  Proof.
+    intros Ha Hsz. destruct (handle_cases target s r) as [[E _]|[_ E]]; [congruence|].
+    rewrite E. cbn [fst accept_state qcache]. unfold lru_put.
+    destruct (cap <? fsize (r_filt r)) eqn:Ec; [lia|].
+    unfold lru_find. cbn [find ekey fst]. rewrite Z.eqb_refl. reflexivity.
+  Qed.
+
+  Definition hinv (target : Z) (s : qstate) : Prop :=
+    forall f, tfilter s = Some f ->
+      ~ In target (pending s) /\ (persist = true -> last_for target f (qdbq s)).
+
+  Lemma handle_hinv target s r : hinv target s -> hinv target (fst (handle target s r)).
+  Proof.
+    intros Hi. destruct (handle_cases target s r) as [[_ E]|[Ha E]]; rewrite E; cbn [fst]; [exact Hi|].
+    intros f. unfold accept_state. cbn [tfilter pending qdbq].
+    destruct (r_blk r =? target) eqn:Et.
+    - apply Z.eqb_eq in Et. intros [= <-]. split.
+      + rewrite zremove_In. intros [_ H]. congruence.
+      + intros ->. exists (qdbq s), []. rewrite Et. split; [reflexivity|intros p0 []].
+    - apply Z.eqb_neq in Et. intros Hf'. destruct (Hi f Hf') as [Hp Hl]. split.
+      + rewrite zremove_In. tauto.
+      + intros Hper. rewrite Hper. destruct (Hl Hper) as (q1 & q2 & -> & Hn).
+        exists q1, (q2 ++ [(r_blk r, r_filt r)]). split; [rewrite <- app_assoc; reflexivity|].
+        intros p0 Hp0. apply in_app_iff in Hp0 as [Hp0|[<-|[]]]; [exact (Hn _ Hp0)|exact Et].
+  Qed.
+
+  Lemma feed_hinv target rs : forall s, hinv target s -> hinv target (fst (feed target s rs)).
+  Proof.
+    induction rs as [|r rs IH]; intros s H; [exact H|].
+    rewrite feed_cons. cbn [fst]. apply IH, handle_hinv, H.
+  Qed.
+
+  (* a call that fetched its filter from the network has queued it for the
+     block AFTER anything queued for that block before *)
+  Lemma get_cfilter_heals st c f :
+    o_res (snd (get_cfilter st c)) = RFilter f -> o_queried (snd (get_cfilter st c)) = true ->
+    persist = true -> last_for (c_blk c) f (dbq (fst (get_cfilter st c))).
+  Proof.
+    gc c st; try discriminate.
+    destruct (c_verdict c) eqn:Hv; try discriminate.
+    destruct (tfilter q) eqn:Etf; [|discriminate]. intros [= <-] _ Hper.
+    pose proof (feed_hinv (c_blk c) (c_resps c)
+                  {| pending := pend; tfilter := None; qcache := cache (touched st c); qdbq := dbq st |}) as Hh.
+    rewrite Hfeed in Hh. cbn [fst] in Hh.
+    destruct (Hh (fun f0 (H : None = Some f0) => ltac:(discriminate)) z Etf) as [_ Hl]. exact (Hl Hper).
+  Qed.
+
+  (* ... so once the batch writer has persisted the queue, the database holds
+     the verified filter for the block, whatever it held before *)
+  Lemma get_cfilter_heals_db st c f :
+    o_res (snd (get_cfilter st c)) = RFilter f -> o_queried (snd (get_cfilter st c)) = true ->
+    persist = true ->
+    let st' := fst (get_cfilter st c) in
+    db_get (db (fst (step st' (Flush (Z.of_nat (length (dbq st'))))))) (c_blk c) = Some f.
+  Proof.
+    intros Hres Hq Hper st'. cbn [Model.step fst db]. unfold flush_count.
+    destruct (Z.of_nat (length (dbq st')) <? 0) eqn:E0; [lia|].
+    rewrite Z.ltb_irrefl, Nat2Z.id, firstn_all.
+    apply flush_last_for, get_cfilter_heals; assumption.
+  Qed.
 End Oracles.
-
-(* ------------------------------------------------------------------ *)
-(* the database as a finite map: puts to OTHER keys do not change a lookup *)
-Lemma db_get_put_other d kv k : fst kv <> k -> db_get (db_put d kv) k = db_get d k.
-Proof.
-  intros Hne. unfold db_get, db_put. cbn [find].
-  destruct (fst kv =? k) eqn:E; [apply Z.eqb_eq in E; contradiction|].
-  induction d as [|p d IH]; [reflexivity|]. cbn [filter find].
-  destruct (fst p =? fst kv) eqn:E1; cbn [negb].
-  - apply Z.eqb_eq in E1. destruct (fst p =? k) eqn:E2; [|exact IH].
-    apply Z.eqb_eq in E2. congruence.
-  - cbn [find]. destruct (fst p =? k); [reflexivity|exact IH].
-Qed.
-
-Lemma db_get_put_all_other w : forall d k,
-  ~ In k (map fst w) -> db_get (db_put_all d w) k = db_get d k.
-Proof.
-  induction w as [|kv w IH]; intros d k Hn; [reflexivity|].
-  cbn [db_put_all fold_left]. change (fold_left db_put w (db_put d kv)) with (db_put_all (db_put d kv) w).
-  rewrite IH; [|intros H; apply Hn; right; exact H].
-  apply db_get_put_other. intros E. apply Hn. left. exact E.
-Qed.
 
 (* ------------------------------------------------------------------ *)
 (* histories with rewrites of the committed filter headers, GetBlock calls and
@@ -819,24 +996,10 @@ Section Rewrites.
   Notation xrun := (xrun Hf fsize cap persist).
   Notation xfinal := (xfinal Hf fsize cap persist).
 
-  (* ghost flags clear => cache, database and queue satisfy the relation for
-     the headers committed NOW *)
-  Definition xinv (st : xstate) : Prop :=
-    stale st = false -> envbad st = false -> state_ok Hf (hdrs st) (base st).
-
-  Lemma entries_ok_state_ok fh g : entries_ok Hf fh g = true -> state_ok Hf fh g.
-  Proof.
-    unfold entries_ok, entries. rewrite !forallb_app, !andb_true_iff, !forallb_forall.
-    intros (Hc & Hd & Hq). repeat split.
-    - intros e He. exact (Hc _ (cache_view_In _ _ He)).
-    - intros b f H. exact (Hd _ H).
-    - intros b f H. exact (Hq _ H).
-  Qed.
-
   Lemma xstep_base st o :
     xstep st (XBase o) =
     ({| base := fst (step Hf (hdrs st) fsize (xbest st) cap persist (base st) o);
-        hdrs := hdrs st; xbest := xbest st; stale := stale st; envbad := envbad st |},
+        hdrs := hdrs st; xbest := xbest st |},
      snd (step Hf (hdrs st) fsize (xbest st) cap persist (base st) o)).
   Proof. cbn [Model.xstep]. destruct (step _ _ _ _ _ _ _ o). reflexivity. Qed.
 
@@ -848,79 +1011,30 @@ Section Rewrites.
     {| cache := cache (fst (gcall st c)); db := db_put_all (db (fst (gcall st c))) w;
        dbq := dbq (fst (gcall st c)) |}.
 
+  Definition rwin (st : xstate) (c : call) : bool := read_window Hf (hdrs st) (xbest st) (base st) c.
+
   Lemma xstep_callw st c w :
     xstep st (XCallW c w) =
-    if read_window (base st) c then
-      ({| base := wdb st c w; hdrs := hdrs st; xbest := xbest st; stale := stale st;
-          envbad := envbad st || negb (forallb (entry_ok Hf (hdrs st)) w) |},
+    if rwin st c then
+      ({| base := wdb st c w; hdrs := hdrs st; xbest := xbest st |},
        {| o_res := o_res (snd (gcall st c)); o_queried := o_queried (snd (gcall st c));
           o_range := o_range (snd (gcall st c)); o_prog := o_prog (snd (gcall st c));
           o_cache := o_cache (snd (gcall st c)); o_db := db (wdb st c w) |})
     else
-      ({| base := fst (gcall st c); hdrs := hdrs st; xbest := xbest st; stale := stale st;
-          envbad := envbad st |}, snd (gcall st c)).
+      ({| base := fst (gcall st c); hdrs := hdrs st; xbest := xbest st |}, snd (gcall st c)).
   Proof.
-    cbn [Model.xstep Model.step]. unfold wdb, gcall.
+    cbn [Model.xstep Model.step]. unfold rwin, wdb, gcall.
     destruct (get_cfilter _ _ _ _ _ _ _ c). reflexivity.
   Qed.
 
   Lemma gcall_db st c : db (fst (gcall st c)) = db (base st).
   Proof. unfold gcall. apply get_cfilter_growth. Qed.
 
-  Lemma xstep_flags_mono st o :
-    stale (fst (xstep st o)) = false -> envbad (fst (xstep st o)) = false ->
-    stale st = false /\ envbad st = false.
-  Proof.
-    destruct o as [o|nb nf|b|c w].
-    - rewrite xstep_base; cbn; auto.
-    - cbn. intros H. apply orb_false_iff in H. tauto.
-    - cbn. auto.
-    - rewrite xstep_callw. destruct (read_window (base st) c); cbn; auto.
-      intros H1 H2. apply orb_false_iff in H2. tauto.
-  Qed.
-
-  Lemma wdb_ok st c w :
-    state_ok Hf (hdrs st) (fst (gcall st c)) -> forallb (entry_ok Hf (hdrs st)) w = true ->
-    state_ok Hf (hdrs st) (wdb st c w).
-  Proof.
-    intros (Hc & Hd & Hq) Hw. repeat split; cbn [wdb cache db dbq]; auto.
-    intros b f H. apply db_put_all_In in H as [H|H]; [apply Hd, H|].
-    rewrite forallb_forall in Hw. exact (Hw _ H).
-  Qed.
-
-  Lemma xstep_inv st o : xinv st -> xinv (fst (xstep st o)).
-  Proof.
-    intros Hi Hs He. destruct (xstep_flags_mono st o Hs He) as [Hs0 He0]. revert Hs He.
-    destruct o as [o|nb nf|b|c w].
-    - rewrite xstep_base. cbn [fst base hdrs stale]. intros _ _. apply step_inv, Hi; assumption.
-    - cbn. intros H _. apply orb_false_iff in H as [_ H]. apply negb_false_iff in H.
-      apply entries_ok_state_ok, H.
-    - cbn. intros _ _. apply Hi; assumption.
-    - rewrite xstep_callw.
-      pose proof (get_cfilter_inv Hf (hdrs st) fsize (xbest st) cap persist (base st) c (Hi Hs0 He0)) as Hg.
-      destruct (read_window (base st) c); cbn [fst base hdrs stale envbad]; [|intros _ _; exact Hg].
-      intros _ H. apply orb_false_iff in H as [_ H]. apply negb_false_iff in H.
-      apply wdb_ok; assumption.
-  Qed.
-
   Lemma xrun_cons st o ops : xrun st (o :: ops) = snd (xstep st o) :: xrun (fst (xstep st o)) ops.
   Proof. cbn [Model.xrun]. destruct (xstep st o). reflexivity. Qed.
 
   Lemma xfinal_app st ops1 ops2 : xfinal st (ops1 ++ ops2) = xfinal (xfinal st ops1) ops2.
   Proof. unfold Model.xfinal. apply fold_left_app. Qed.
-
-  Lemma xfinal_inv ops : forall st, xinv st -> xinv (xfinal st ops).
-  Proof.
-    induction ops as [|o ops IH]; intros st H; [exact H|]. cbn. apply IH, xstep_inv, H.
-  Qed.
-
-  Lemma xfinal_flags_mono ops : forall st,
-    stale (xfinal st ops) = false -> envbad (xfinal st ops) = false ->
-    stale st = false /\ envbad st = false.
-  Proof.
-    induction ops as [|o ops IH]; intros st H1 H2; [auto|].
-    cbn in H1, H2. destruct (IH _ H1 H2) as [A B]. exact (xstep_flags_mono st o A B).
-  Qed.
 
   (* the call of an overlapped lookup is observed like an undisturbed call *)
   Definition call_of (o : xop) : option call :=
@@ -935,67 +1049,38 @@ Section Rewrites.
     dbq (base (fst (xstep st (XCallW c w)))) = dbq (fst (gcall st c)) /\
     o_db ob = db (base (fst (xstep st (XCallW c w)))).
   Proof.
-    cbv zeta. rewrite xstep_callw. destruct (read_window (base st) c); cbn; repeat split.
+    cbv zeta. rewrite xstep_callw. destruct (rwin st c); cbn; repeat split.
     unfold gcall. apply step_obs with (o := Call c).
   Qed.
 
-  (* UNLESS: as long as no rewrite has invalidated a stored entry (and the
-     overlapping writers stored verified filters only), the full property
-     holds after any history, w.r.t. the headers committed at that point *)
-  Lemma xstep_unless st o :
-    xinv st -> stale (fst (xstep st o)) = false -> envbad (fst (xstep st o)) = false ->
-    let fh' := hdrs (fst (xstep st o)) in
-    let ob := snd (xstep st o) in
-    (forall c f, call_of o = Some c -> o_res ob = RFilter f -> verified Hf fh' (c_blk c) f = true) /\
-    (forall b f, In (b, f) (o_cache ob) -> verified Hf fh' b f = true) /\
-    (forall b f, In (b, f) (o_db ob) -> verified Hf fh' b f = true).
+  Lemma xstep_call_hdrs st o c : call_of o = Some c ->
+    hdrs (fst (xstep st o)) = hdrs st /\ o_res (snd (xstep st o)) = o_res (snd (gcall st c)) /\
+    o_queried (snd (xstep st o)) = o_queried (snd (gcall st c)).
   Proof.
-    intros Hi Hs He. pose proof (xstep_inv st o Hi Hs He) as Hok'.
-    destruct (xstep_flags_mono st o Hs He) as [Hs0 He0]. pose proof (Hi Hs0 He0) as Hok.
-    destruct o as [o|nb nf|b|c w].
-    - rewrite xstep_base in *. cbn [fst snd hdrs base] in *.
-      pose proof (every_history Hf (hdrs st) fsize (xbest st) cap persist [o] (base st) Hok o
-                    (snd (step Hf (hdrs st) fsize (xbest st) cap persist (base st) o))) as H.
-      rewrite run_cons in H. cbn [combine] in H. destruct (H (or_introl eq_refl)) as (H1 & H2 & H3).
-      repeat split; auto. intros c f Hc. apply H1. destruct o; try discriminate. injection Hc as ->. reflexivity.
-    - cbn [Model.xstep fst snd hdrs base mk_obs o_res o_cache o_db] in *.
-      destruct Hok' as (Hc & Hd & _). repeat split.
-      + discriminate.
-      + intros b f H. unfold cache_view in H. apply in_map_iff in H as (e & [= <- <-] & He'). apply Hc, He'.
-      + intros b f H. apply Hd, H.
-    - cbn [Model.xstep fst snd hdrs base mk_obs o_res o_cache o_db] in *.
-      destruct Hok as (Hc & Hd & _). repeat split.
-      + discriminate.
-      + intros b' f H. unfold cache_view in H. apply in_map_iff in H as (e & [= <- <-] & He'). apply Hc, He'.
-      + intros b' f H. apply Hd, H.
-    - destruct (xstep_callw_obs st c w) as (E1 & _ & _ & _ & E5 & E6 & _ & E8).
-      assert (Eh : hdrs (fst (xstep st (XCallW c w))) = hdrs st).
-      { rewrite xstep_callw. destruct (read_window (base st) c); reflexivity. }
-      cbv zeta. rewrite Eh. rewrite Eh in Hok'. destruct Hok' as (Hc & Hd & _).
-      repeat split.
-      + intros c' f [= <-]. rewrite E1. unfold gcall. apply get_cfilter_verified. exact Hok.
-      + intros b f H. rewrite E5 in H.
-        pose proof (step_obs Hf (hdrs st) fsize (xbest st) cap persist (base st) (Call c)) as [Eo _].
-        cbn [Model.step] in Eo. unfold gcall in H. rewrite Eo in H. unfold cache_view in H.
-        apply in_map_iff in H as (e & [= <- <-] & He').
-        apply Hc. rewrite E6. exact He'.
-      + intros b f H. rewrite E8 in H. apply Hd, H.
+    destruct o as [o|nb nf|b|c' w]; try discriminate.
+    - destruct o; try discriminate. intros [= ->]. rewrite xstep_base. cbn. auto.
+    - intros [= ->]. destruct (xstep_callw_obs st c w) as (E1 & E2 & _). cbv zeta in E1, E2.
+      rewrite E1, E2. rewrite xstep_callw. destruct (rwin st c); auto.
   Qed.
 
-  Lemma every_history_unless ops1 o st0 :
-    xinv st0 ->
+  (* THE theorem for histories with rewrites, unconditionally: after ANY
+     history (calls, flushes, resets, purges, rewrites of the committed
+     headers, GetBlock calls, lookups overlapped by any writers) from ANY
+     state, a filter that a call returns — from the network, the cache or the
+     database — satisfies the relation for the headers committed NOW *)
+  Lemma every_history_rewrites ops1 o st0 c f :
     let st := xfinal st0 ops1 in
-    stale (fst (xstep st o)) = false -> envbad (fst (xstep st o)) = false ->
-    let fh' := hdrs (fst (xstep st o)) in
-    let ob := snd (xstep st o) in
-    (forall c f, call_of o = Some c -> o_res ob = RFilter f -> verified Hf fh' (c_blk c) f = true) /\
-    (forall b f, In (b, f) (o_cache ob) -> verified Hf fh' b f = true) /\
-    (forall b f, In (b, f) (o_db ob) -> verified Hf fh' b f = true).
-  Proof. intros Hi st. apply xstep_unless, xfinal_inv, Hi. Qed.
+    call_of o = Some c -> o_res (snd (xstep st o)) = RFilter f ->
+    verified Hf (hdrs st) (c_blk c) f = true /\ hdrs (fst (xstep st o)) = hdrs st.
+  Proof.
+    intros st Hc Hres. destruct (xstep_call_hdrs st o c Hc) as (Eh & Er & _).
+    split; [|exact Eh]. rewrite Er in Hres. unfold gcall in Hres.
+    eapply get_cfilter_verified, Hres.
+  Qed.
 
-  (* ALWAYS (stale or not): what a call fetches from the network, and what it
-     adds to the cache, satisfies the relation for the headers committed when
-     the call took its snapshot — i.e. at the call, in the sequential history *)
+  (* what a call fetches from the network, and what it adds to the cache,
+     satisfies the relation for the headers committed when the call took its
+     snapshot — i.e. at the call, in the sequential history *)
   Lemma snapshot_verified ops1 c st0 f :
     let st := xfinal st0 ops1 in
     let ob := snd (xstep st (XBase (Call c))) in
@@ -1006,24 +1091,40 @@ Section Rewrites.
   Proof.
     intros st ob. unfold ob. rewrite xstep_base. cbn [fst snd base Model.step].
     intros Hres Hq. split.
-    - destruct (get_cfilter_from_network _ _ _ _ _ _ _ _ _ Hres Hq) as (_ & _ & r & _ & _ & _ & _ & Hv). exact Hv.
+    - eapply get_cfilter_verified, Hres.
     - intros e He. destruct (get_cfilter_growth Hf (hdrs st) fsize (xbest st) cap persist (base st) c) as (G & _).
       apply G in He as [He|(_ & _ & Hv)]; auto.
   Qed.
 
-  (* a retry after the committed headers were rewritten: whatever was asked,
-     answered or failed before the rewrite, a filter the retry fetches from
-     the network satisfies the relation for the REWRITTEN headers (the code
-     keeps no header range from one query to the next) *)
+  (* a retry after the committed headers were rewritten *)
   Lemma retry_after_rewrite st0 ops1 c1 nb nf c f :
     let st := xfinal st0 (ops1 ++ [XBase (Call c1); XRewrite nb nf]) in
     let ob := snd (xstep st (XBase (Call c))) in
-    o_res ob = RFilter f -> o_queried ob = true -> verified Hf nf (c_blk c) f = true.
+    o_res ob = RFilter f -> verified Hf nf (c_blk c) f = true.
   Proof.
-    intros st ob Hres Hq.
-    destruct (snapshot_verified (ops1 ++ [XBase (Call c1); XRewrite nb nf]) c st0 f Hres Hq) as [H _].
+    intros st ob Hres.
+    destruct (every_history_rewrites (ops1 ++ [XBase (Call c1); XRewrite nb nf]) (XBase (Call c)) st0 c f
+                eq_refl Hres) as [H _].
     replace (hdrs (xfinal st0 (ops1 ++ [XBase (Call c1); XRewrite nb nf]))) with nf in H; [exact H|].
     rewrite xfinal_app. cbn [Model.xfinal fold_left]. reflexivity.
+  Qed.
+
+  (* healing: a stale entry is not handed out; the verified network answer is
+     queued after it and, once persisted, is what the database holds *)
+  Lemma stale_entry_healed st c f :
+    persist = true ->
+    let st1 := fst (xstep st (XBase (Call c))) in
+    let ob := snd (xstep st (XBase (Call c))) in
+    o_res ob = RFilter f -> o_queried ob = true ->
+    last_for (c_blk c) f (dbq (base st1)) /\
+    db_get (db (base (fst (xstep st1 (XBase (Flush (Z.of_nat (length (dbq (base st1))))))))))
+           (c_blk c) = Some f.
+  Proof.
+    intros Hper st1 ob. unfold st1, ob. rewrite !xstep_base. cbn [fst snd base hdrs xbest Model.step].
+    intros Hres Hq. split.
+    - eapply get_cfilter_heals; eassumption.
+    - pose proof (get_cfilter_heals_db Hf (hdrs st) fsize (xbest st) cap persist (base st) c f Hres Hq Hper) as H.
+      cbv zeta in H. cbn [Model.step fst] in H. exact H.
   Qed.
 
   (* ---------------------------------------------------------------- *)
@@ -1050,22 +1151,17 @@ Section Rewrites.
   (* ---------------------------------------------------------------- *)
   (* database lookups overlapped by other writers: snapshot semantics *)
 
-  (* committing w after the call = committing it right after the lookup's read
-     transaction: get_cfilter never writes the database itself *)
   Lemma callw_two_phase st c w :
-    read_window (base st) c = true ->
+    rwin st c = true ->
     db (base (fst (xstep st (XCallW c w)))) = snd (db_fetch (db (base st)) (c_blk c) w).
   Proof.
     intros Hw. rewrite xstep_callw, Hw. cbn [fst base wdb db db_fetch snd]. rewrite gcall_db. reflexivity.
   Qed.
 
-  Lemma read_window_miss g c :
-    c_ftype_ok c = true -> (forall e, In e (cache g) -> ekey e <> c_blk c) -> read_window g c = true.
+  Lemma rwin_miss st c :
+    c_ftype_ok c = true -> (forall e, In e (cache (base st)) -> ekey e <> c_blk c) -> rwin st c = true.
   Proof.
-    intros Hft Hm. unfold read_window. rewrite Hft. cbn [andb].
-    destruct (lru_find (cache g) (c_blk c)) as [e|] eqn:F; [|reflexivity].
-    exfalso. unfold lru_find in F. apply find_some in F as [Hin Hk]. apply Z.eqb_eq in Hk.
-    exact (Hm e Hin Hk).
+    intros Hft Hm. unfold rwin, read_window. rewrite Hft, (lru_get_miss _ _ Hm). reflexivity.
   Qed.
 
   Lemma db_read_snapshot st c w f :
@@ -1075,20 +1171,30 @@ Section Rewrites.
     let st' := fst (xstep st (XCallW c w)) in
     let ob := snd (xstep st (XCallW c w)) in
     fst (db_fetch (db (base st)) (c_blk c) w) = Some f /\
-    o_res ob = RFilter f /\ o_queried ob = false /\
-    cache (base st') = cache (base st) /\ dbq (base st') = dbq (base st) /\
+    (local_ok Hf (hdrs st) (xbest st) c f = true ->
+       o_res ob = RFilter f /\ o_queried ob = false /\
+       cache (base st') = cache (base st) /\ dbq (base st') = dbq (base st)) /\
+    (local_ok Hf (hdrs st) (xbest st) c f = false ->
+       forall f', o_res ob = RFilter f' -> o_queried ob = true) /\
     db (base st') = db_put_all (db (base st)) w /\
     (~ In (c_blk c) (map fst w) -> db_get (db (base st')) (c_blk c) = Some f).
   Proof.
     intros Hft Hm Hdb. cbv zeta.
-    pose proof (read_window_miss (base st) c Hft Hm) as Hw.
-    assert (Hg : gcall st c = (base st, mk_obs (base st) (RFilter f) false (0, 0) [])).
-    { unfold gcall, Model.get_cfilter. rewrite Hft. cbn [negb].
-      destruct (lru_get (cache (base st)) (c_blk c)) as [[hv|] hc] eqn:Hget.
-      - exfalso. apply lru_get_some in Hget as (e & Hin & Hk & _). exact (Hm e Hin Hk).
-      - rewrite Hdb. reflexivity. }
-    rewrite xstep_callw, Hw. unfold wdb. rewrite Hg. cbn [fst snd base cache db dbq mk_obs o_res o_queried db_fetch].
-    repeat split; auto. intros Hn. rewrite db_get_put_all_other; assumption.
+    pose proof (rwin_miss st c Hft Hm) as Hw.
+    assert (Ed : db (base (fst (xstep st (XCallW c w)))) = db_put_all (db (base st)) w).
+    { rewrite (callw_two_phase st c w Hw). reflexivity. }
+    destruct (xstep_callw_obs st c w) as (E1 & E2 & _ & _ & _ & E6 & E7 & _). cbv zeta in E1, E2.
+    rewrite E1, E2, E6, E7. split; [exact Hdb|]. split; [|split; [|split]].
+    - intros Hl. unfold gcall, Model.get_cfilter. cbv zeta. rewrite Hft. cbn [negb].
+      rewrite (lru_get_miss _ _ Hm), Hdb. cbn [fst snd Model.good]. rewrite Hl.
+      cbn [fst snd mk_obs o_res o_queried cache dbq]. auto.
+    - intros Hl f' Hres.
+      destruct (o_queried (snd (gcall st c))) eqn:Hq; [reflexivity|]. exfalso.
+      destruct (get_cfilter_from_local Hf (hdrs st) fsize (xbest st) cap persist (base st) c f' Hres Hq)
+        as [Hl' [(e & Hin & Hk & _)|Hd]]; [exact (Hm e Hin Hk)|].
+      rewrite Hdb in Hd. injection Hd as <-. congruence.
+    - exact Ed.
+    - intros Hn. rewrite Ed. rewrite db_get_put_all_other; assumption.
   Qed.
 
   (* whatever the overlapping writers store, even under the SAME key: the
@@ -1101,107 +1207,89 @@ Section Rewrites.
     o_range (snd sw) = o_range (snd s0) /\ o_prog (snd sw) = o_prog (snd s0) /\
     o_cache (snd sw) = o_cache (snd s0) /\
     cache (base (fst sw)) = cache (base (fst s0)) /\ dbq (base (fst sw)) = dbq (base (fst s0)) /\
-    hdrs (fst sw) = hdrs (fst s0) /\ xbest (fst sw) = xbest (fst s0) /\ stale (fst sw) = stale (fst s0) /\
-    db (base (fst sw)) = (if read_window (base st) c then db_put_all (db (base st)) w else db (base st)).
+    hdrs (fst sw) = hdrs (fst s0) /\ xbest (fst sw) = xbest (fst s0) /\
+    db (base (fst sw)) = (if read_window Hf (hdrs st) (xbest st) (base st) c
+                          then db_put_all (db (base st)) w else db (base st)).
   Proof.
-    cbv zeta. rewrite xstep_base. cbn [Model.step fst snd base hdrs xbest stale].
-    rewrite xstep_callw. fold (gcall st c).
-    destruct (read_window (base st) c); cbn [fst snd base hdrs xbest stale wdb cache db dbq o_res o_queried o_range o_prog o_cache];
+    cbv zeta. rewrite xstep_base. cbn [Model.step fst snd base hdrs xbest].
+    rewrite xstep_callw. fold (gcall st c). fold (rwin st c).
+    destruct (rwin st c); cbn [fst snd base hdrs xbest wdb cache db dbq o_res o_queried o_range o_prog o_cache];
       rewrite ?gcall_db; repeat split; reflexivity.
   Qed.
 
   (* ---------------------------------------------------------------- *)
-  (* the core monitor accepts every model trace with rewrites; the strict
-     monitor accepts it whenever the ghost flags are clear at the end *)
+  (* the monitor of the correspondence run accepts every model trace *)
   Definition xops_wf (ops : list xop) : Prop :=
     (forall c, In (XBase (Call c)) ops -> 0 <= c_blk c < two32) /\
     (forall nb nf, In (XRewrite nb nf) ops -> 0 <= nb < two32) /\
     (forall c w, In (XCallW c w) ops -> 0 <= c_blk c < two32).
 
-  Lemma window_seen_read_window g c : window_seen (cache_view (cache g)) c = read_window g c.
+  Lemma window_seen_read_window fh best g c :
+    window_seen Hf fh best (cache_view (cache g)) c = read_window Hf fh best g c.
   Proof.
-    unfold window_seen, read_window. f_equal. unfold lru_find.
-    induction (cache g) as [|e l IH]; [reflexivity|]. cbn [cache_view map existsb find fst].
-    change (fst (ekey e, eval e)) with (ekey e).
-    destruct (ekey e =? c_blk c); [reflexivity|]. cbn [orb]. exact IH.
+    unfold window_seen, read_window. f_equal. rewrite (has_good_cache Hf fh best g c).
+    destruct (good Hf fh best c (fst (lru_get (cache g) (c_blk c)))); reflexivity.
   Qed.
 
-  Lemma rewrite_ok_same strict fh g :
-    (strict = true -> state_ok Hf fh g) ->
-    rewrite_ok Hf strict fh (cache_view (cache g)) (db g) (mk_obs g RNone false (0, 0) []) = true.
+  Lemma unchanged_ok_same g :
+    unchanged_ok (cache_view (cache g)) (db g) (mk_obs g RNone false (0, 0) []) = true.
   Proof.
-    intros X. unfold rewrite_ok. cbn [mk_obs o_cache o_db]. apply andb_true_iff.
-    split; apply forallb_forall; intros x Hx; apply andb_true_iff; (split; [|apply pmem_In, Hx]);
-      (destruct strict; cbn [negb]; [|apply orb_true_r]); destruct (X eq_refl) as (Hc & Hd & _).
-    - unfold cache_view in Hx. apply in_map_iff in Hx as (e & <- & He). cbn [fst snd].
-      rewrite (Hc e He). reflexivity.
-    - destruct x as [b f]. cbn [fst snd]. rewrite (Hd b f Hx). reflexivity.
+    unfold unchanged_ok. cbn [mk_obs o_cache o_db]. apply andb_true_iff.
+    split; apply forallb_forall; intros x Hx; apply pmem_In, Hx.
   Qed.
 
-  Lemma xfirst_bad_model strict ops : forall st sv i,
+  Lemma xfirst_bad_model ops : forall st sv i,
     0 <= xbest st < two32 -> xops_wf ops ->
-    (strict = true -> stale (xfinal st ops) = false /\ envbad (xfinal st ops) = false) -> xinv st ->
     (forall p, In p (dbq (base st)) -> In p sv) ->
-    xfirst_bad Hf strict (hdrs st) (xbest st) i (cache_view (cache (base st))) (db (base st)) sv
+    xfirst_bad Hf (hdrs st) (xbest st) i (cache_view (cache (base st))) (db (base st)) sv
       (combine ops (xrun st ops)) = None.
   Proof.
-    induction ops as [|o ops IH]; intros st sv i Hb (Hw1 & Hw2 & Hw3) Hs Hi Hm; [reflexivity|].
+    induction ops as [|o ops IH]; intros st sv i Hb (Hw1 & Hw2 & Hw3) Hm; [reflexivity|].
     rewrite xrun_cons. cbn [combine].
-    assert (Hs1 : strict = true -> stale (fst (xstep st o)) = false /\ envbad (fst (xstep st o)) = false).
-    { intros E. destruct (Hs E) as [A B]. exact (xfinal_flags_mono ops _ A B). }
-    assert (Hs0 : strict = true -> state_ok Hf (hdrs st) (base st)).
-    { intros E. destruct (Hs1 E) as [A B]. destruct (xstep_flags_mono st o A B) as [A0 B0]. exact (Hi A0 B0). }
     assert (Hwf' : xops_wf ops).
     { split; [intros c Hc; apply Hw1; right; exact Hc|].
       split; [intros nb nf Hc; apply (Hw2 nb nf); right; exact Hc|intros c w Hc; apply (Hw3 c w); right; exact Hc]. }
-    assert (Hs' : strict = true -> stale (xfinal (fst (xstep st o)) ops) = false /\
-                                   envbad (xfinal (fst (xstep st o)) ops) = false) by exact Hs.
-    pose proof (xstep_inv st o Hi) as Hi'.
     destruct o as [o|nb nf|b|c w].
     - rewrite xstep_base in *. cbn [fst snd Spec.xfirst_bad].
-      destruct (step_ok_model Hf (hdrs st) fsize (xbest st) cap persist strict (base st) sv o Hb)
+      destruct (step_ok_model Hf (hdrs st) fsize (xbest st) cap persist false (base st) sv o Hb)
         as (Hok & Hm' & Hpd).
       { intros c ->. apply Hw1. left. reflexivity. }
-      { exact Hs0. }
+      { discriminate. }
       { exact Hm. }
       rewrite Hok, Hpd.
       destruct (step_obs Hf (hdrs st) fsize (xbest st) cap persist (base st) o) as [-> _].
       pose proof (IH {| base := fst (step Hf (hdrs st) fsize (xbest st) cap persist (base st) o);
-                        hdrs := hdrs st; xbest := xbest st; stale := stale st; envbad := envbad st |}
-                     (next_sv sv o) (i + 1)) as IH'.
+                        hdrs := hdrs st; xbest := xbest st |} (next_sv sv o) (i + 1)) as IH'.
       cbn [base hdrs xbest] in IH'. apply IH'; auto.
-    - cbn [Model.xstep fst snd Spec.xfirst_bad mk_obs o_cache o_db] in *.
-      assert (Hr : rewrite_ok Hf strict nf (cache_view (cache (base st))) (db (base st))
-                     (mk_obs (base st) RNone false (0, 0) []) = true).
-      { apply rewrite_ok_same. intros E. destruct (Hs1 E) as [A B]. exact (Hi' A B). }
-      cbn [mk_obs o_cache o_db] in Hr. rewrite Hr.
-      pose proof (IH {| base := base st; hdrs := nf; xbest := nb;
-                        stale := stale st || negb (entries_ok Hf nf (base st)); envbad := envbad st |} sv (i + 1)) as IH'.
+    - cbn [Model.xstep fst snd Spec.xfirst_bad].
+      rewrite unchanged_ok_same. cbn [mk_obs o_cache o_db].
+      pose proof (IH {| base := base st; hdrs := nf; xbest := nb |} sv (i + 1)) as IH'.
       cbn [base hdrs xbest] in IH'. apply IH'; auto.
       apply (Hw2 nb nf). left. reflexivity.
-    - cbn [Model.xstep fst snd Spec.xfirst_bad mk_obs o_cache o_db] in *.
-      pose proof (rewrite_ok_same strict (hdrs st) (base st) Hs0) as Hr.
-      cbn [mk_obs o_cache o_db] in Hr. rewrite Hr. apply IH; auto.
+    - cbn [Model.xstep fst snd Spec.xfirst_bad].
+      rewrite unchanged_ok_same. cbn [mk_obs o_cache o_db]. apply IH; auto.
     - cbn [Spec.xfirst_bad].
-      destruct (step_ok_model Hf (hdrs st) fsize (xbest st) cap persist strict (base st) sv (Call c) Hb)
+      destruct (step_ok_model Hf (hdrs st) fsize (xbest st) cap persist false (base st) sv (Call c) Hb)
         as (Hok & Hm' & _).
       { intros c' [= <-]. apply (Hw3 c w). left. reflexivity. }
-      { exact Hs0. }
+      { discriminate. }
       { exact Hm. }
       cbn [Model.step next_sv] in Hok, Hm'. fold (gcall st c) in Hok, Hm'.
       destruct (xstep_callw_obs st c w) as (E1 & E2 & E3 & E4 & E5 & E6 & E7 & E8).
-      assert (Hok2 : step_ok Hf (hdrs st) (xbest st) strict (cache_view (cache (base st))) (db (base st)) sv
+      assert (Hok2 : step_ok Hf (hdrs st) (xbest st) false (cache_view (cache (base st))) (db (base st)) sv
                        (Call c) (snd (xstep st (XCallW c w))) = true).
       { rewrite <- Hok. unfold Spec.step_ok. rewrite E1, E2, E3, E5. reflexivity. }
       rewrite Hok2. rewrite window_seen_read_window. rewrite E5.
       pose proof (step_obs Hf (hdrs st) fsize (xbest st) cap persist (base st) (Call c)) as [Eo _].
       cbn [Model.step] in Eo. fold (gcall st c) in Eo. rewrite Eo, <- E6.
-      assert (Ed : (if read_window (base st) c then db_put_all (db (base st)) w else db (base st)) =
+      assert (Ed : (if read_window Hf (hdrs st) (xbest st) (base st) c
+                    then db_put_all (db (base st)) w else db (base st)) =
                    db (base (fst (xstep st (XCallW c w))))).
-      { rewrite xstep_callw. destruct (read_window (base st) c); cbn [fst base wdb db]; rewrite gcall_db; reflexivity. }
+      { rewrite xstep_callw. unfold rwin.
+        destruct (read_window Hf (hdrs st) (xbest st) (base st) c); cbn [fst base wdb db]; rewrite gcall_db; reflexivity. }
       rewrite Ed.
       assert (Eh : hdrs (fst (xstep st (XCallW c w))) = hdrs st /\ xbest (fst (xstep st (XCallW c w))) = xbest st).
-      { rewrite xstep_callw. destruct (read_window (base st) c); split; reflexivity. }
+      { rewrite xstep_callw. destruct (rwin st c); split; reflexivity. }
       destruct Eh as [Eh Eb].
       pose proof (IH (fst (xstep st (XCallW c w))) (served c ++ sv) (i + 1)) as IH'.
       rewrite Eh, Eb in IH'. apply IH'; auto.
